@@ -152,6 +152,16 @@ class CharPtr:
     def __getitem__(self, i):
         return ('chars', self.text)[i]      # lets code that expects the ('chars', text) tuple read the text
 
+    def __add__(self, k):
+        if not isinstance(k, int) or not 0 <= k <= len(self.text):
+            raise UndefinedBehaviour('pointer %r + %r leaves the character data' % (self.text, k))
+        return CharPtr(self.text[k:], self.addr + k)
+
+    def deref(self):
+        if not self.text:
+            raise UndefinedBehaviour('read at the end of the character data')
+        return ord(self.text[0]) if isinstance(self.text, str) else self.text[0]
+
 
 _addr_counter = [1000]
 
